@@ -114,6 +114,13 @@ class CachedStore(Entity):
     def downstream_entities(self) -> list[Entity]:
         return [self._backing_store]
 
+    def set_clock(self, clock) -> None:
+        """Inject the simulation clock, and hand it to a clock-less TTL policy."""
+        super().set_clock(clock)
+        bind = getattr(self._eviction_policy, "bind_clock", None)
+        if bind is not None:
+            bind(lambda: self.now.to_seconds())
+
     @property
     def stats(self) -> CachedStoreStats:
         """Frozen snapshot of cached store statistics."""
